@@ -53,6 +53,7 @@ def _model(it, movable, force, has_refs):
     def construct_x(i, st, a, k, n):
         new = SymObj("instance", {"__class__": X, "_buffer": SymObj("XBuffer", {"context": k.get("_context")}), "_offset": fresh_int("new_offset"), "_has_refs": has_refs})
         new.closed = True
+        new.attrs["__getstate__"] = _Callable(lambda i_, s_, a_, k_, n_, uid=new.uid: ("xobject-state", uid))
         st.recorded = getattr(st, "recorded", []) + [("construct", "X", tuple(a), dict(k), new.uid)]
         st.ghost[f"__new{new.uid}"] = new
         return new
@@ -177,6 +178,11 @@ def vc_copy():
                             ob("in_its_own_context", getattr(c[3].get("_context"), "uid", None) == own_ctx.uid and c[3].get("_buffer") is None)
                         ob("new_object_wraps_the_copy", getattr(d[3].get("_xobject"), "uid", None) == c[4])
                         ob("result_is_the_new_object", out is not None and out[0] == "return" and getattr(out[1], "uid", None) == d[4])
+                        # frame on the ownership flags: whether an object may be moved is decided where it is built or stored (the
+                        # constructor, the field descriptor), copy() itself does not declare its result movable / forced
+                        if out is not None and out[0] == "return" and isinstance(out[1], SymObj):
+                            new = it._relocate(st, out[1])
+                            ob("copy_does_not_set_ownership_flags_on_its_result", "_movable" not in new.attrs and "_force_moveable" not in new.attrs)
             except HARNESS_ERRORS as e:
                 vc_copy.undecided.append((lab, f"{type(e).__name__}: {e}"[:160]))
             obs += it.obligations
@@ -185,17 +191,28 @@ def vc_copy():
 
 
 def vc_state():
+    """__getstate__ of a dressed object -- top-level or living within another (nested field, target of a reference), with or without
+    references in its data: the state is the state of its own xobject (buffer, offset), so objects pickled together keep sharing
+    the buffer they shared (C20); nothing is constructed or copied on the way."""
     obs = []
-    it = _env()
+    its = []
     con = _contract("HybridClass.__getstate__")
-    h, x, X, H, own_ctx = _model(it, True, False, False)
-    try:
-        for st, out in it.exec_function(con, {"self": h}):
-            it.oblige(st, "post", "state_is_the_state_of_the_xobject", z3.BoolVal(out is not None and out[0] == "return" and out[1] == ("xobject-state", x.uid)))
-    except HARNESS_ERRORS as e:
-        vc_state.undecided.append(("getstate", f"{type(e).__name__}: {e}"[:160]))
-    vc_state.interps = [it]
-    return list(it.obligations)
+    for movable in (True, False):
+        for has_refs in (False, True):
+            lab = f"{'top' if movable else 'nested'}:{'refs' if has_refs else 'ref_free'}"
+            it = _env()
+            its.append(it)
+            h, x, X, H, own_ctx = _model(it, movable, False, has_refs)
+            try:
+                for st, out in it.exec_function(con, {"self": h}):
+                    cons = [e for e in getattr(st, "recorded", []) if e[0] in ("construct", "dress")]
+                    it.oblige(st, "post", f"state_is_the_state_of_the_xobject[{lab}]", z3.BoolVal(out is not None and out[0] == "return" and out[1] == ("xobject-state", x.uid)))
+                    it.oblige(st, "post", f"nothing_constructed[{lab}]", z3.BoolVal(len(cons) == 0))
+            except HARNESS_ERRORS as e:
+                vc_state.undecided.append((lab, f"{type(e).__name__}: {e}"[:160]))
+            obs += it.obligations
+    vc_state.interps = its
+    return obs
 
 
 GROUPS = {}
